@@ -14,11 +14,11 @@ Section Classes.
 
   (* the clause loop is entered on a blank: either some clause precedes, or at least one blank is written *)
   Definition sep_ok (w : str) : Prop := cl <> [] \/ w <> [].
-  Lemma head_ok w X : all_ws w -> sep_ok w -> is_ws (peek (clauses_text cl ++ w ++ X)) = true.
+  Lemma head_ok w X : all_ws w -> sep_ok w -> ctlhead (peek (clauses_text cl ++ w ++ X)) = true.
   Proof.
     intros Hw [NE|NE]; [now apply (clauses_head cl (base name q))|].
     destruct cl as [|c0 cl0]; [|now apply (clauses_head (c0 :: cl0) (base name q))].
-    cbn [clauses_text map List.concat app]. now apply ws_head.
+    cbn [clauses_text map List.concat app]. unfold ctlhead. now rewrite ws_head.
   Qed.
   Lemma mk_bad w X : all_ws w -> sep_ok w -> evRes (fun f => controllers f (base name q) (clauses_text cl ++ w ++ X)) Err ->
     bad_alt (name ++ qual_text q ++ clauses_text cl ++ w ++ X).
